@@ -260,6 +260,14 @@ func c09Case(t *rapid.T, c *kit.Case, rec *kit.Recorder) {
 			}
 		}
 	}
+	if !a.Static && len(a.ASPath) > 0 && !a.ASPath[0].Set && rapid.IntRange(0, 11).Draw(t, "longseg") == 0 {
+		// leading AS_SEQUENCE at the segment size limit (255 ASNs): prepending must open a new segment
+		want := rapid.SampledFrom([]int{253, 254, 255}).Draw(t, "longseg_len")
+		for len(a.ASPath[0].ASNs) < want {
+			a.ASPath[0].ASNs = append(a.ASPath[0].ASNs, uint32(64900+len(a.ASPath[0].ASNs)%50))
+		}
+		c.Class("leading_segment_253_255")
+	}
 	if a.HasAggr {
 		// packet.serializeAggregator always writes the 6-byte (2-octet AS) form; with
 		// 4-octet AS numbers negotiated that is malformed (RFC 6793 §4.2.3) and the
